@@ -666,6 +666,11 @@ class Interp:
             if self.mentions_stream(st):
                 self.err(st, "try statement in a codec method")
             return
+        if isinstance(st, ast.Assert):
+            # an assertion that only asks the stream for its position neither reads nor writes
+            calls = [c for c in ast.walk(st) if isinstance(c, ast.Call) and self.mentions_stream(c)]
+            if all(isinstance(c.func, ast.Attribute) and self.is_stream(c.func.value) and c.func.attr in ("tell", "seekable", "writable", "readable") and not c.args for c in calls):
+                return
         if isinstance(st, (ast.Import, ast.ImportFrom, ast.Global, ast.Nonlocal, ast.Assert, ast.Delete)):
             if self.mentions_stream(st):
                 self.err(st, "unmodelled statement over the stream")
